@@ -28,7 +28,9 @@
                    Frobenius form (calc_chordal_distance, _2) equals the trace form
                    n - tr(P_A P_B) (sum of sin^2 of the principal angles), symmetry, zero and
                    equal projectors for B = A T (T invertible), invariance under a change of
-                   basis of one argument and under a common signed-permutation unitary.
+                   basis of one argument, under a common signed-permutation unitary and under a
+                   common Householder reflection (dense, rational unitary); exact sum and product
+                   of cos^2 of the principal angles.
      smw           update_inv_sum_diag, see above.
      conv / ebn0   unit conversions on the decade lattice {m 10^e}: a power 10^k W is 10k dB
                    and 10k+30 dBm; the conversions are mutually inverse; Eb/N0 <-> SNR differ
@@ -51,7 +53,8 @@
    known (trace, determinant, positive-definiteness certificate), the harness evaluates the
    required relation numerically:
      gmd           full-rank A = [L U ; X]: Q R P^H = A, Q, P unitary, R upper triangular with
-                   constant diagonal sigma_bar, sigma_bar^(2p) = det(A^H A) (exact when known).
+                   constant diagonal sigma_bar, sigma_bar^(2p) = det(A^H A) (exact when known);
+                   every third case has REPEATED, exactly known singular values.
      whiten        Hermitian positive definite C = A^H A + I (Sylvester certificate for n <= 4):
                    W^H C W = I, |det W|^2 det C = 1.
      eigrel        generic Hermitian positive definite H up to 8x8: H V = V diag(D), D the n
@@ -68,6 +71,8 @@
                              W^H C W # I whenever C has a repeated eigenvalue (C = A^H A + I
                              with cols - rank(A) >= 2: the usual noise-plus-few-interferers
                              covariance).
+   The call contract of the selectors (LrsvOutcome, PcmOutcome, EigOutcome, WhitenOutcome) is also
+   what Trace_Subspace.tla validates recorded calls on random float matrices against.
    A further deviation has no flag because only its signature is matched (stated in the
    harness): get_principal_component_matrix truncates the singular values when the input has
    an integer dtype (field `intdtype` of the svd cases asks for that call).               *)
